@@ -1,6 +1,7 @@
 package props
 
 import (
+	"fmt"
 	"go/token"
 	"go/types"
 
@@ -169,4 +170,44 @@ func purityOfWriters(r *core.Run, ef *errFlow, pkgs []pkgCodec, rule string) {
 		walk(rt, core.FuncName(rt))
 	}
 	_ = p
+}
+
+// rxOwnership: the receive queue of a channel belongs to the reader goroutine. Every use of Channel.queueRx lies in a
+// function statically reachable from (*Conn).ReadFrom or is the initialising store in NewChannel. A consumer-side
+// function (SendRemainingPackets' deferred reset, Reset, QueuePackage ...) that touches it races with the reader and
+// can throw away the half of a package that WritePacket kept for the retry.
+func rxOwnership(r *core.Run, rule string) {
+	p := r.Prog
+	fRx := p.Field("tds", "Channel", "queueRx")
+	reader := readerPathFuncs(p)
+	nc := p.Func("tds", "Conn", "NewChannel")
+	n := 0
+	for _, fn := range p.ModuleFuncs() {
+		for _, b := range fn.Blocks {
+			for _, in := range b.Instrs {
+				fa, ok := in.(*ssa.FieldAddr)
+				if !ok || core.FieldOfAddr(fa) != fRx {
+					continue
+				}
+				n++
+				if reader[fn] || p.FuncInOverlay(fn) {
+					continue
+				}
+				if fn == nc {
+					// only the initialising store
+					init := true
+					for _, ref := range *fa.Referrers() {
+						if st, isSt := ref.(*ssa.Store); !isSt || st.Addr != ssa.Value(fa) {
+							init = false
+						}
+					}
+					if init {
+						continue
+					}
+				}
+				r.Bad(rule, core.FuncName(fn)+": use of Channel.queueRx outside the reader goroutine", fa.Pos(), core.FuncName(fn)+" is not on the reader goroutine's path but uses the receive queue: it runs concurrently with WritePacket, and resetting or moving the queue there discards the bytes of a package that was cut by a packet boundary and kept for the retry — the rest of the response is then parsed from the middle of a package")
+			}
+		}
+	}
+	r.Check(n >= 5, rule, "Channel.queueRx is used by the reader goroutine only", token.NoPos, fmt.Sprintf("%d uses, all on the reader path (or the initialisation in NewChannel)", n), "fewer uses of Channel.queueRx than expected: the rule does not see the code")
 }
